@@ -118,6 +118,9 @@ ENC = {
     "E1": Enc("E1", [10, 20, 30], -1, int, "numeric-sentinel"),
     "E2": Enc("E2", ["a", "b", "c"], "nan", str, "string-sentinel"),
     "E3": Enc("E3", ["a", "b", "c"], None, object, "none-sentinel"),
+    # class names of different lengths ('c1' < 'c10' < 'c2' is an order-preserving renaming of 0 < 1 < 2): string arrays built
+    # from single labels then differ in item size (seed R7C09)
+    "E4": Enc("E4", ["c1", "c10", "c2"], "?", str, "string-sentinel"),
 }
 CLF_ENCS = ["E0", "E1", "E2", "E3"]
 
@@ -426,6 +429,32 @@ add("gnb/partial_fit", "SklearnClassifier", "partial_fit", run_clf("gnb", partia
 add("perceptron/no-proba", "SklearnClassifier", "fit", lambda e: (lambda c: {"pred": c.fit(e.X, e.y).predict(e.ds.Xt), "classes_": np.asarray(c.classes_)})(e.clf("perceptron")))
 add("sw-gnb/window+only_labeled", "SlidingWindowClassifier", "partial_fit", run_clf("sw-gnb", partial=True, window_size=10, only_labeled=True))
 add("sw-pwc/window", "SlidingWindowClassifier", "partial_fit", run_clf("sw-pwc", partial=True, window_size=8))
+
+
+def run_sw_stream(kind, window_size):
+    """the stream loop: fit on the first samples, then one partial_fit per arriving sample with arrays built from that sample
+    alone (their dtype follows their own content); the samples of the middle class arrive last, when the window is full"""
+    def run(e):
+        c = e.clf(kind, window_size=window_size)
+        order = sorted(range(e.ds.n), key=lambda i: (int(e.ds.yi[i]) == 1, i))
+        first = order[:2]
+        c.fit(e.X[first], np.array([e.y[i] for i in first], dtype=e.y.dtype if e.y.dtype == object else None))
+        for i in order[2:]:
+            yi = np.empty(1, dtype=object) if e.y.dtype == object else None
+            if yi is None:
+                yi = np.array([e.y[i]])
+            else:
+                yi[0] = e.y[i]
+            c.partial_fit(e.X[i:i + 1], yi)
+        return {"proba": c.predict_proba(e.ds.Xt), "pred": c.predict(e.ds.Xt), "classes_": np.asarray(c.classes_)}
+
+    return run
+
+
+add("sw-pwc/stream-loop", "SlidingWindowClassifier", "partial_fit", run_sw_stream("sw-pwc", 4), encs=("E0", "E1", "E2", "E3", "E4"))
+add("sw-gnb/stream-loop", "SlidingWindowClassifier", "partial_fit", run_sw_stream("sw-gnb", 5), encs=("E0", "E2", "E4"))
+add("pwc/string-lengths", "ParzenWindowClassifier", "fit", run_clf("pwc"), encs=("E0", "E4"))
+add("gnb/partial_fit/string-lengths", "SklearnClassifier", "partial_fit", run_clf("gnb", partial=True), encs=("E0", "E4"))
 
 
 def run_maclf(which, classes=True, cost=False, voting="hard", member_classes=False):
